@@ -391,6 +391,41 @@ def consumeNumeric (pos : Nat) (repr : Str) (isInt : Bool) (rest : Str) : Step :
     | '%' :: rest' => .leaf [Tok.pct pos repr isInt] rest'
     | _ => .leaf [Tok.num pos repr isInt] rest
 
+/-- tokens that start with punctuation: `@` `#` brackets, quotes, comments, delimiters
+(`c :: cs` does not start white space, a unicode-range, `-->`, an identifier or a number) -/
+def stepPunct (q : Quirks) (pos : Nat) (c : Char) (cs : Str) : Step :=
+  if c = '@' then
+    if startsIdent cs then
+      let n := consumeName cs.length cs
+      .leaf [Tok.atkw pos n.1] n.2
+    else .leaf [Tok.lit pos ['@']] cs
+  else if c = '#' then
+    match cs with
+    | d :: ds =>
+      if isNameChar d || (d = '\\' && validEscTail ds) then
+        let n := consumeName cs.length cs
+        .leaf [Tok.hash pos n.1 (startsIdent cs)] n.2
+      else .leaf [Tok.lit pos ['#']] cs
+    | [] => .leaf [Tok.lit pos ['#']] cs
+  else if c = '{' then .openB .curly cs
+  else if c = '[' then .openB .square cs
+  else if c = '(' then .openB .paren cs
+  else if c = '}' ∨ c = ']' ∨ c = ')' then .close c cs
+  else if c = '"' ∨ c = '\'' then
+    let s := consumeString c cs.length cs
+    match s.2.1 with
+    | .closed => .leaf [Tok.str pos s.1 false] s.2.2
+    | .eof => .leaf [Tok.str pos s.1 true, Tok.error pos 's'] s.2.2
+    | .newline => .leaf [Tok.error pos 'b'] s.2.2
+  else if c = '/' then
+    match cs with
+    | '*' :: body =>
+      match consumeComment body with
+      | some (b, rest) => .leaf [Tok.comment pos b] rest
+      | none => .stop [Tok.comment pos body] (if q.commentEof then cs else [])
+    | _ => .leaf [Tok.lit pos ['/']] cs
+  else consumeDelim pos (c :: cs)
+
 def step (q : Quirks) (total : Nat) (inp : Str) : Step :=
   let pos := total - inp.length
   match inp with
@@ -406,38 +441,7 @@ def step (q : Quirks) (total : Nat) (inp : Str) : Step :=
     else if startsIdent inp then consumeIdentLike q pos inp
     else match consumeNumber inp with
       | some (repr, isInt, rest) => consumeNumeric pos repr isInt rest
-      | none =>
-        if c = '@' then
-          if startsIdent cs then
-            let n := consumeName cs.length cs
-            .leaf [Tok.atkw pos n.1] n.2
-          else .leaf [Tok.lit pos ['@']] cs
-        else if c = '#' then
-          match cs with
-          | d :: ds =>
-            if isNameChar d || (d = '\\' && validEscTail ds) then
-              let n := consumeName cs.length cs
-              .leaf [Tok.hash pos n.1 (startsIdent cs)] n.2
-            else .leaf [Tok.lit pos ['#']] cs
-          | [] => .leaf [Tok.lit pos ['#']] cs
-        else if c = '{' then .openB .curly cs
-        else if c = '[' then .openB .square cs
-        else if c = '(' then .openB .paren cs
-        else if c = '}' ∨ c = ']' ∨ c = ')' then .close c cs
-        else if c = '"' ∨ c = '\'' then
-          let s := consumeString c cs.length cs
-          match s.2.1 with
-          | .closed => .leaf [Tok.str pos s.1 false] s.2.2
-          | .eof => .leaf [Tok.str pos s.1 true, Tok.error pos 's'] s.2.2
-          | .newline => .leaf [Tok.error pos 'b'] s.2.2
-        else if c = '/' then
-          match cs with
-          | '*' :: body =>
-            match consumeComment body with
-            | some (b, rest) => .leaf [Tok.comment pos b] rest
-            | none => .stop [Tok.comment pos body] (if q.commentEof then cs else [])
-          | _ => .leaf [Tok.lit pos ['/']] cs
-        else consumeDelim pos inp
+      | none => stepPunct q pos c cs
 
 /-! ## §5.4.7–5.4.9 component values: simple blocks and functions -/
 
